@@ -221,6 +221,9 @@ def band_case(ctx, rng, idx):
     pk = pname.startswith('PK')
     n_times = int(rng.integers(1, 6))
     times = rng.permutation(np.array([0.5, 1.0, 2.0, 3.5, 5.0, 8.0]))[:n_times]
+    # the origin of the time axis is arbitrary (seconds late in a long
+    # experiment, epoch time stamps): neighbouring times stay distinct
+    times = times + float(rng.choice([0, 0, 0, 2e5, 1.7e9]))
     n_s = int(rng.choice([2, 3, 5, 10, 40, 200, 500]))
     ties = bool(rng.integers(2))
     rows = []
